@@ -56,6 +56,11 @@ def worlds(tier, seed):
     # the largest seeds numpy accepts: the per-deme CMA-ES seed (random_seed + start metaepoch) lands on 2**32 - 1
     for j, eng in enumerate([("SEA", "CMAf"), ("DE", "CMAw"), ("LHS", "CMAs"), ("SHADE", "DE")]):
         out.append(dict(engines=list(eng), gens=1 + j % 2, Mh=3, seed=2**32 - 2, sprout={"kind": "simple", "L": 1}, hib=bool(j % 2), drive="run", request_probe=False, obj="twofunnel"))
+    # beyond the small scope (hmsmc/scale.py): populations above 64, dimension 12 and 30
+    from ..scale import big_population_worlds, high_dimension_worlds
+
+    for d in big_population_worlds(tier, seed, engines=[("DE", "SHADE"), ("DEd", "SEA"), ("SHADE", "CMAf"), ("MWEA", "DE")])[::2] + high_dimension_worlds(tier, seed):
+        out.append(dict(d, drive="run", request_probe=False, Mh=min(d["Mh"], 4)))
     # random_seed = 0 is a seed like any other
     for eng in [e for e in shapes_h2() if e[1].startswith("CMA")] + [("SEA",), ("LHS", "SOB"), ("DE", "SHADE")]:
         k += 1
